@@ -754,7 +754,7 @@ def gen_copy_case(r, cid):
     else:
         inner = '<xsl:copy-of select="%s/@*"/>' % sel
         wrap["attrs"] = dict(target["attrs"])
-        # finding KN9: a copied attribute node keeps its prefix and nothing declares it in the new parent;
+        # repaired finding KN9 (a copied attribute node kept its prefix and nothing declared it in the new parent);
         # class: some attribute has a namespace that the result element does not bind to the SAME prefix
         srcp = src_prefixes(src, k)
         if any(u and dict(wns).get(srcp.get((u, l))) != u for (u, l) in target["attrs"]):
@@ -786,7 +786,7 @@ def fixed_copy_cases():
     ]
 
 
-KN9_KEY = "KN9"      # known finding while the library is unrepaired; None once the KN9 fix is committed
+KN9_KEY = None       # KN9 repaired (fixes/C14/KN9.diff): the class is generated and must pass, the replays are regression cases
 
 # ---------------------------------------------------------------------------------------------
 # corpus: replays of the findings (stylesheet bodies; source <doc/>)
